@@ -68,7 +68,7 @@ func runWorker(spec *props.Spec, tier string, seed uint64, offset, stride, runs 
 		r := core.NewRng(core.Mix(seed, spec.ID, uint64(i)))
 		vs := spec.Run(r, uint64(i), seed, tier, cov)
 		out.Runs++
-		fmt.Fprintf(&dig, "%d:%d:%d:%d;", i, r.Draws, cov.Evaluations, cov.Steps)
+		fmt.Fprintf(&dig, "%d:%d:%d:%d:%s;", i, r.Draws, cov.Evaluations, cov.Steps, cov.Digest)
 		for _, v := range vs {
 			fmt.Fprintf(&dig, "V%s;", v.Clause)
 			if len(out.Violations) < 40 {
